@@ -115,6 +115,8 @@ class Restriction(Family):
     def check(self, case):
         it = self.items[case]
         g = it['grader']()
+        for pre in it.get('before', ()):
+            run(it['grader'](), pre)          # earlier submissions (whatever their outcome) must not matter
         out = run(g, it['input'])
         where = '%s; input %r' % (it['label'], it['input'])
         if it['kind'] == 'control':
@@ -161,8 +163,12 @@ class Restriction(Family):
                                     it['allowed'], detail))
 
 
-def mk(label, grader, inp, kind, allowed=None, credit=None, tag=''):
-    return dict(label=label, grader=grader, input=inp, kind=kind, allowed=allowed, credit=credit, tag=tag)
+def mk(label, grader, inp, kind, allowed=None, credit=None, tag='', before=()):
+    return dict(label=label, grader=grader, input=inp, kind=kind, allowed=allowed, credit=credit, tag=tag, before=before)
+
+
+# balanced, but too deep for the recursive grammar: fails inside the parser with a non-parse error (generic message)
+DEEP = '(' * 150 + '1' + ')' * 150
 
 
 def build_functions(tier):
@@ -237,6 +243,10 @@ def build_required_forbidden(tier):
                 if cheat.endswith('Cos'):
                     continue
                 items.append(mk(lab, mkg, cheat, 'cheat', FUNC_ERR, tag='required'))
+            # ... also right after a submission that fails deep inside the parser (first-time spellings of the cheat)
+            for k, cheat in enumerate(('1-2*sin(x)^2+0*7919', 'sin(2*x+pi/2)+0*7907', '(1-tan(x)^2)/(1+tan(x)^2)+0*7901')):
+                items.append(mk(lab + ' after a too-deeply nested submission', mkg, cheat + '*%d' % (k + 2), 'cheat', FUNC_ERR,
+                                tag='required-after-failed-parse', before=('cos(1)+sin(1)+' + DEEP,)))
             # two required functions, student omits one
             mkg = lambda cls=cls, credit=credit: cls(answers={'expect': 'sin(x)+cos(x)', 'grade_decimal': credit}, variables=['x'],
                                                      required_functions=['sin', 'cos'])
